@@ -286,6 +286,9 @@ func (u *Unit) classifyExits() {
 							// `return nil, nil`: empty exit, still counts as a non-failing exit
 							ex.Output = true
 						}
+					} else if u.isTailCheck(last) {
+						// `return v.validateRest()`: succeeds when the callee does (a tail atom is added for it)
+						ex.Output = true
 					} else {
 						ex.Failure = true
 					}
@@ -312,6 +315,34 @@ func (u *Unit) classifyExits() {
 			u.Exits = append(u.Exits, ex)
 		}
 	}
+}
+
+// isTailCheck: the returned error is the result of a call that is not an error constructor
+// (errs / errors / fmt functions, `With…` methods on an error value), i.e. a delegated check.
+func (u *Unit) isTailCheck(e ast.Expr) bool {
+	call, ok := ast.Unparen(e).(*ast.CallExpr)
+	if !ok {
+		return false
+	}
+	if tv, ok := u.Info.Types[call.Fun]; ok && tv.IsType() {
+		return false
+	}
+	f, _ := typeutil.Callee(u.Info, call).(*types.Func)
+	if f == nil {
+		return false
+	}
+	if f.Pkg() != nil {
+		pp := f.Pkg().Path()
+		if strings.HasSuffix(pp, "errs-go/errs") || pp == "errors" || pp == "fmt" {
+			return false
+		}
+	}
+	if sig, ok := f.Type().(*types.Signature); ok && sig.Recv() != nil {
+		if types.Implements(sig.Recv().Type(), errorIface) || types.Implements(types.NewPointer(sig.Recv().Type()), errorIface) {
+			return false // a method of an error value builds an error
+		}
+	}
+	return true
 }
 
 func (u *Unit) computeFR() {
@@ -752,10 +783,22 @@ func (u *Unit) rootCalls(e ast.Expr, at ast.Node, seen map[ast.Node]bool, depth 
 				case "len", "cap", "append", "min", "max":
 					for _, a := range x.Args {
 						u.rootCalls(a, at, seen, depth, out)
+						// len(x) with x := f(): the tested length is that of f's result
+						if id, ok := ast.Unparen(a).(*ast.Ident); ok && (b.Name() == "len" || b.Name() == "cap") {
+							if dc := u.definingCall(id); dc != nil && !seen[dc] {
+								seen[dc] = true
+								u.rootCalls(dc, at, seen, depth+1, out)
+							}
+						}
 					}
 				}
 				return
 			}
+		}
+		// slices.Contains(xs, v) is the loop `for _, e := range xs { if e == v {…} }`
+		if isSlicesContains(u.Info, x) {
+			u.rootCalls(x.Args[1], at, seen, depth, out)
+			return
 		}
 		// error wrappers: errs.Wrap(err), errs.Join(errs...), errors.Join
 		if f := typeutil.StaticCallee(u.Info, x); f != nil && f.Pkg() != nil {
@@ -870,7 +913,11 @@ func (u *Unit) shapeOf(e ast.Expr) string {
 			if b, ok := u.Info.Uses[id].(*types.Builtin); ok {
 				args := []string{}
 				for _, a := range x.Args {
-					args = append(args, u.shapeOf(a))
+					if b.Name() == "len" || b.Name() == "cap" {
+						args = append(args, u.condOperand(a)) // len(x) with x := f() is len(call)
+					} else {
+						args = append(args, u.shapeOf(a))
+					}
 				}
 				return b.Name() + "(" + strings.Join(args, ",") + ")"
 			}
@@ -1164,9 +1211,33 @@ func (u *Unit) leafShape(e ast.Expr, failTrue bool) string {
 		}
 		return s
 	case *ast.CallExpr:
+		if isSlicesContains(u.Info, x) {
+			// rendered as the element comparison of the equivalent loop
+			elem := "?"
+			if sl, ok := u.Info.TypeOf(x.Args[0]).Underlying().(*types.Slice); ok {
+				elem = "<" + shortType(sl.Elem()) + ">"
+			}
+			op := token.EQL
+			if !failTrue {
+				op = token.NEQ
+			}
+			l, r := elem, u.condOperand(x.Args[1])
+			if u.leafMode {
+				return l + "⟪" + op.String() + "⟫" + r
+			}
+			if l > r {
+				l, r = r, l
+			}
+			return l + op.String() + r
+		}
 		return neg + "call"
 	}
 	return neg + u.shapeOf(e)
+}
+
+func isSlicesContains(info *types.Info, c *ast.CallExpr) bool {
+	f := typeutil.StaticCallee(info, c)
+	return f != nil && f.Pkg() != nil && f.Pkg().Path() == "slices" && f.Name() == "Contains" && len(c.Args) == 2
 }
 
 // computeControlDeps returns for each block whether it is *unconditional* with respect to
@@ -1474,9 +1545,20 @@ type paramSubst map[string]string
 
 func newParamSubst(u *Unit, c *ast.CallExpr) paramSubst {
 	ps := paramSubst{}
+	variadic := -1
+	if f, ok := typeutil.Callee(u.Info, c).(*types.Func); ok {
+		if sig := f.Type().(*types.Signature); sig.Variadic() && !c.Ellipsis.IsValid() {
+			variadic = sig.Params().Len() - 1
+		}
+	}
 	for i, a := range c.Args {
 		if i > 9 {
 			break
+		}
+		if variadic >= 0 && i > variadic {
+			// `parts...` inside the helper stands for all the trailing arguments
+			ps["$"+itoa(variadic)] += "," + u.argShape(a, c, 1)
+			continue
 		}
 		ps["$"+itoa(i)] = u.argShape(a, c, 1)
 	}
